@@ -57,6 +57,38 @@ var nfsHandlers = map[uint32]nfsHandler{
 	NFSPROC3_MKNOD:       (*NFSProcedureHandler).handleMknod,
 }
 
+// drainReplyBody builds the NFS3ERR_JUKEBOX result of an NFSv3 procedure: the
+// status word followed by the empty post_op_attr / wcc_data members its
+// RFC 1813 resfail type carries. ok is false for calls that have no such result.
+func drainReplyBody(call *RPCCall) ([]byte, bool) {
+	if call.Header.Program != NFS_PROGRAM || call.Header.Version != NFS_V3 {
+		return nil, false
+	}
+	var absent int // number of FALSE attribute discriminants after the status
+	switch call.Header.Procedure {
+	case NFSPROC3_GETATTR:
+		absent = 0
+	case NFSPROC3_LOOKUP, NFSPROC3_ACCESS, NFSPROC3_READLINK, NFSPROC3_READ,
+		NFSPROC3_READDIR, NFSPROC3_READDIRPLUS, NFSPROC3_FSSTAT, NFSPROC3_FSINFO, NFSPROC3_PATHCONF:
+		absent = 1
+	case NFSPROC3_SETATTR, NFSPROC3_WRITE, NFSPROC3_CREATE, NFSPROC3_MKDIR, NFSPROC3_SYMLINK,
+		NFSPROC3_MKNOD, NFSPROC3_REMOVE, NFSPROC3_RMDIR, NFSPROC3_COMMIT:
+		absent = 2
+	case NFSPROC3_LINK:
+		absent = 3
+	case NFSPROC3_RENAME:
+		absent = 4
+	default:
+		return nil, false
+	}
+	var buf bytes.Buffer
+	xdrEncodeUint32(&buf, NFSERR_JUKEBOX)
+	for i := 0; i < absent; i++ {
+		xdrEncodeUint32(&buf, 0)
+	}
+	return buf.Bytes(), true
+}
+
 // HandleCall processes an NFS RPC call and returns a reply.
 // It snapshots options at entry, tracks in-flight requests for drain-and-swap,
 // and rejects new requests during a policy drain.
@@ -77,10 +109,13 @@ func (h *NFSProcedureHandler) HandleCall(call *RPCCall, body io.Reader, authCtx 
 	// is in progress, causing us to return JUKEBOX so clients retry.
 	if !handler.policyRWMu.TryRLock() {
 		// Policy drain in progress -- return NFSERR_JUKEBOX
-		var buf bytes.Buffer
-		xdrEncodeUint32(&buf, NFSERR_JUKEBOX)
-		reply.Data = buf.Bytes()
-		return reply, nil
+		if data, ok := drainReplyBody(call); ok {
+			reply.Data = data
+			return reply, nil
+		}
+		// The call has no "try again later" result (NULL, MOUNT, unknown
+		// program/version/procedure): wait for the update to finish instead.
+		handler.policyRWMu.RLock()
 	}
 	// DO NOT defer RUnlock here -- the goroutine owns the lock so that
 	// drain-and-swap blocks until the goroutine's filesystem work finishes,
